@@ -627,3 +627,6 @@ func clip(s string, n int) string {
 
 // TypeIsNamed reports whether t (pointer-stripped) is the named type full.
 func TypeIsNamed(t types.Type, full string) bool { return NamedTypeOf(t) == full }
+
+// KMD_IsAdminUser returns the full name of IsAdminUser (exported for rule files).
+func KMD_IsAdminUser() string { return fnIsAdminUser }
